@@ -704,8 +704,10 @@ theorem applicable_ec (a : Artifact) :
 /-! ### what the rows of the EC checks say (C02), for EVERY batch -/
 
 open WeierstrassCurve in
-/-- hypothesis of every group-level statement: the field moduli of the nine curves of
-`CURVE_FACTORY` are prime (validated per run by gmpy2.is_prime). -/
+/-- premise of every group-level lemma of this file: the field moduli of the nine curves of
+`CURVE_FACTORY` are prime.  It is PROVED: `fieldPrimes` (Proofs/EcAllPrimes.lean, from the
+kernel-checked Pratt certificates of Props/C11Primes.lean); the property theorems of
+Props/C16EcAll.lean do not carry it. -/
 def FieldPrimes : Prop := ∀ e ∈ ecFactory, ∀ c, e.curve = some c → Nat.Prime c.p
 
 theorem curveHyp_of_factoryGet (hp : FieldPrimes) {id : Nat} {c : Curve}
